@@ -708,13 +708,13 @@ func init() {
 					}
 					if x, y, ok := c13Consistent(frows, rows); !ok {
 						rc.Violate("intermediate-order", "sort=%s keys=%s cmd=%s: intermediate render #%d shows row %q above %q, the final output of the same run shows them the other way round\n intermediate: %q\n final: %q\nvariant: %s\nscenario: %v",
-							sa, keysKind, sc.Cmd, fi+1, x, y, frows, rows, v, desc)
+							strings.ToLower(sa), keysKind, sc.Cmd, fi+1, x, y, frows, rows, v, desc)
 						break
 					}
 					if sc.Cmd == "table" {
 						if x, y, ok := c13Consistent(fcols, cols); !ok {
 							rc.Violate("intermediate-order", "sort=%s keys=%s cmd=%s: intermediate render #%d shows column %q before %q, the final output of the same run shows them the other way round\n intermediate: %q\n final: %q\nvariant: %s\nscenario: %v",
-								sa, keysKind, sc.Cmd, fi+1, x, y, fcols, cols, v, desc)
+								strings.ToLower(sa), keysKind, sc.Cmd, fi+1, x, y, fcols, cols, v, desc)
 							break
 						}
 					}
